@@ -33,6 +33,12 @@ HOSTILE = ['a()', 'a{}', 'a(())', 'aa()', 'a(a())', 'ay', 'aay', 'aaay', 'aaaaaa
            'a(y)', 'a(ay)', 'a{yv}', 'a{sv}', 'a{yay}', '(i', 'a{i', 'a', 'aa', 'a(', '(', ')', '}', '{', 'z', 'ai)',
            'v', 'vv', '(v)', 'a(v)', 's', 'g', 'o', 'ax', 'a(x)', 'at', 'ad', 'ab', 'ah', 'a(iii)', 'yyyyuua(yv)',
            '(' * 20 + 'y' + ')' * 20, 'a' * 30 + 'y', 'a(' * 10 + 'y' + ')' * 10]
+# long signatures (up to the 255 limit): the splitter's work must stay proportional to the signature, whatever
+# the number of arrays / containers in a row or the nesting depth
+LONG_SIGS = ['ay' * 24, 'ay' * 127, 'aay' * 80, 'a(y)' * 60, '(ay)' * 60, 'a{yv}' * 40, '(yay)' * 50, 'a(ay)' * 50,
+             'a' * 31 + 'y', 'a' * 32 + 'y', 'a' * 254 + 'y', 'a' * 255, '(' * 32 + 'y' + ')' * 32, '(' * 127 + ')' * 127,
+             '(' * 255, 'y' * 255, 'a{y' * 30 + 'y' + '}' * 30, 'a{sa{sa{sa{say}}}}' * 10, 'a(a(a(a(y))))' * 15,
+             'as' * 100, 'ag' * 100, 'aai' * 85]
 VARIANT_SIGS = ['a()', 'a{}', 'aay', '(', '', 'a', 'ay', 'a(y)', 'z', 'a(())', 'yy', 'ai']
 
 
@@ -184,6 +190,15 @@ def obligations(tier):
     for i, vs in enumerate(VARIANT_SIGS):
         obs.append(Ob('var:%d:%s' % (i, vs), 'var', {'vsig': vs, 'n': 6}, timeout=120, path_timeout=30,
                       twin=True, functions=FUNCS[:6], bounds='variant signature concrete (hostile family), 6 symbolic bytes after it'))
+    for i, ls in enumerate(LONG_SIGS):
+        for carrier in ('top', 'var', 'hdr'):
+            if carrier == 'var' and len(ls) > 255:
+                continue
+            if tier == 'quick' and carrier != 'top' and i % 3 != 0:
+                continue
+            obs.append(Ob('long:%d:%s:%s' % (i, carrier, ls[:8]), 'long', {'i': i, 'carrier': carrier, 'n': 6},
+                          timeout=240, path_timeout=30, twin=(i % 5 == 0), functions=FUNCS,
+                          bounds='concrete signature of %d characters, 6 symbolic data bytes' % len(ls)))
     for n in range(0, (3 if tier == 'quick' else 5) + 1):
         obs.append(Ob('gct:len%d' % n, 'gct', {'n': n}, timeout=300 if n <= 3 else 1500, path_timeout=30, twin=(n > 0),
                       functions=FUNCS[5:6], bounds='symbolic string of length %d, any characters' % n))
@@ -253,6 +268,40 @@ def build(family, p):
         wit = [honest, tuple([0] * nf), tuple([2 ** 32 - 1] * nf), tuple([2 ** 31] * nf),
                tuple((2 ** 32 - 13 + i) for i in range(nf)), tuple([honest[0]] + [2 ** 32 - 13] * (nf - 1))]
         return Spec(h, [('l%d' % i, int) for i in range(nf)], witnesses=wit)
+
+    if family == 'long':
+        ls, n, carrier = LONG_SIGS[p['i']], p['n'], p['carrier']
+        from .. import ref_msg
+        if carrier == 'var':
+            head = bytes([len(ls)]) + ls.encode('ascii') + b'\0'
+        elif carrier == 'hdr':
+            hdr = bytearray(ref_msg.encode(4, 0, 5, [(1, 'o', '/x'), (2, 's', 'o.x'), (3, 's', 'S'), (8, 'g', ls)]))
+            hdr[4:8] = (n).to_bytes(4, 'little')
+            head = bytes(hdr)
+        else:
+            head = b''
+
+        def h(data):
+            for b in data:
+                assume(0 <= b <= 255)
+            raw = mkbytes(list(head) + list(data))
+            with Counter(marshal, limit(len(head) + n, len(ls) + 1)) as c:
+                try:
+                    if carrier == 'var':
+                        marshal.unmarshal('v', raw, 0, True, [])
+                    elif carrier == 'hdr':
+                        message.parseMessage(raw, [])
+                    else:
+                        marshal.unmarshal(ls, raw, 0, True, [])
+                except Budget:
+                    raise Violation('decoder exceeded its step budget on a long signature')
+                except Exception:
+                    pass
+            reached()
+        h.__name__ = 'long'
+        T = Tuple[tuple([int] * n)]
+        wit = [tuple([0] * n), tuple([255] * n), tuple([1, 0, 0, 0, 7, 0][:n]), tuple([2, 0, 0, 0, 1, 1][:n])]
+        return Spec(h, [('data', T)], witnesses=[(w,) for w in wit])
 
     if family == 'var':
         vsig, n = p['vsig'], p['n']
